@@ -188,6 +188,16 @@ impl<VM: VMBinding> Space<VM> for LockFreeImmortalSpace<VM> {
             .verify_metadata_context(std::any::type_name::<Self>(), &self.metadata)
     }
 
+    #[cfg(feature = "mmtk_verif")]
+    fn verif_side_metadata_specs(
+        &self,
+    ) -> (
+        &[crate::util::metadata::side_metadata::SideMetadataSpec],
+        &[crate::util::metadata::side_metadata::SideMetadataSpec],
+    ) {
+        (&self.metadata.global, &self.metadata.local)
+    }
+
     fn enumerate_objects(&self, enumerator: &mut dyn ObjectEnumerator) {
         enumerator.visit_address_range(self.start, self.start + self.total_bytes);
     }
